@@ -32,6 +32,9 @@ type FileSpec struct {
 	Src   Src    `json:"src"`
 	Exec  bool   `json:"x,omitempty"`
 	Group int    `json:"g,omitempty"` // > 0: files of one multi-file fixture (read through input.FS by the same Extract)
+	// CorruptLink: in the corrupted run the file has been replaced by a symbolic link with this
+	// target (root-relative; a path that does not exist = dangling, a directory = every read fails).
+	CorruptLink string `json:"corrupt_link,omitempty"`
 }
 
 // Order is the extractor order of the configuration: all enabled extractors sorted by name
@@ -43,14 +46,15 @@ type Order struct {
 
 // RunSpec is everything one scan needs.
 type RunSpec struct {
-	Mode     string        `json:"mode"` // "sim": SimFS with a virtual root; "real": sandboxed directory, DirectFS
-	OS       string        `json:"os"`   // linux | windows | mac  (Capabilities.OS)
-	Running  bool          `json:"running,omitempty"`
-	Files    []FileSpec    `json:"files"`
-	Dirs     []string      `json:"dirs,omitempty"` // extra (empty) directories
-	Order    Order         `json:"order"`
-	Disk     scan.DiskPlan `json:"disk"`
-	CancelAt int           `json:"cancel_at"` // -1 never; sim: seam event index; real: index of the Extract call
+	Mode         string        `json:"mode"` // "sim": SimFS with a virtual root; "real": sandboxed directory, DirectFS
+	OS           string        `json:"os"`   // linux | windows | mac  (Capabilities.OS)
+	Running      bool          `json:"running,omitempty"`
+	Files        []FileSpec    `json:"files"`
+	Dirs         []string      `json:"dirs,omitempty"` // extra (empty) directories
+	Order        Order         `json:"order"`
+	Disk         scan.DiskPlan `json:"disk"`
+	ReadSymlinks bool          `json:"read_symlinks,omitempty"`
+	CancelAt     int           `json:"cancel_at"` // -1 never; sim: seam event index; real: index of the Extract call
 	// CancelOn (sim): cancel when the K-th occurrence of (Op, Path) is recorded, e.g. the 3rd read
 	// of an rpm database = in the middle of GetRealPath's temporary copy.
 	CancelOn *scan.Fault `json:"cancel_on,omitempty"`
@@ -134,6 +138,7 @@ type harness struct {
 	cancelAt     int
 	realMode     bool
 	budgetHit    string
+	curReq       string // extractor whose FileRequired is running
 	cancelOnSeen int
 	origPanic    string // first panic seen leaving an Extract call
 	origExt      string // the extractor it left
@@ -149,7 +154,9 @@ type wrapped struct {
 }
 
 func (w *wrapped) FileRequired(api filesystem.FileAPI) bool {
+	w.h.curReq = w.Name()
 	r := w.Extractor.FileRequired(api)
+	w.h.curReq = ""
 	m := w.h.obs.Required[w.Name()]
 	if m == nil {
 		m = map[string]bool{}
@@ -228,7 +235,11 @@ func (w *wrapped) extract(ctx context.Context, input *filesystem.ScanInput) (inv
 					w.h.cur.Err = fmt.Sprintf("panic: %v", r)
 					w.h.cur.Panicked = true
 				}
+			} else if w.h.cur != nil {
+				// a budget signal of the harness: if the engine contains it, this extraction failed
+				w.h.cur.Err = "harness budget exceeded"
 			}
+			w.h.cur = nil // the call is over; later seam events belong to nobody
 			panic(r)
 		}
 	}()
@@ -254,6 +265,7 @@ func enabledExtractors(caps *plugin.Capabilities, o Order) []filesystem.Extracto
 			exs = append(exs, e)
 		}
 	}
+	exs = append(exs, canary{})
 	if o.Rev {
 		for i, j := 0, len(exs)-1; i < j; i, j = i+1, j-1 {
 			exs[i], exs[j] = exs[j], exs[i]
@@ -312,13 +324,17 @@ func buildTree(spec *RunSpec, corrupt bool) (*scan.Node, int, error) {
 		if p == "." || strings.HasPrefix(p, "../") || strings.HasPrefix(p, "/") {
 			continue
 		}
-		b, err := f.Src.Bytes(corrupt)
-		if err != nil {
-			return nil, 0, err
-		}
 		d := mk(path.Dir(p))
 		if d == nil || d.Lookup(path.Base(p)) != nil {
 			continue
+		}
+		if corrupt && f.CorruptLink != "" {
+			d.Children = append(d.Children, &scan.Node{Name: path.Base(p), Kind: "symlink", Target: path.Clean(f.CorruptLink)})
+			continue
+		}
+		b, err := f.Src.Bytes(corrupt)
+		if err != nil {
+			return nil, 0, err
 		}
 		d.Children = append(d.Children, &scan.Node{Name: path.Base(p), Kind: "file", Content: string(b), Exec: f.Exec})
 		total += len(b)
@@ -346,6 +362,12 @@ func writeTree(root *scan.Node, dir string) error {
 		switch x.Kind {
 		case "dir":
 			err = os.MkdirAll(full, 0o755)
+		case "symlink":
+			rel, rerr := filepath.Rel(filepath.Dir(full), filepath.Join(dir, filepath.FromSlash(x.Target)))
+			if rerr != nil {
+				rel = x.Target
+			}
+			err = os.Symlink(rel, full)
 		case "file":
 			mode := os.FileMode(0o644)
 			if x.Exec {
@@ -374,7 +396,7 @@ func runScan(spec *RunSpec, corrupt bool, sb *sandbox, after func(ext, p string)
 	h.readLimit = 64 * (total + 4096)
 	h.openLimit = 64 + 8*obs.Nodes
 	caps := &plugin.Capabilities{OS: osOf(spec.OS), Network: plugin.NetworkOffline, RunningSystem: spec.Running, DirectFS: spec.Mode == "real"}
-	cfg := &scalibr.ScanConfig{Capabilities: caps}
+	cfg := &scalibr.ScanConfig{Capabilities: caps, ReadSymlinks: spec.ReadSymlinks}
 	for _, e := range enabledExtractors(caps, spec.Order) {
 		obs.Enabled = append(obs.Enabled, e.Name())
 		cfg.FilesystemExtractors = append(cfg.FilesystemExtractors, &wrapped{Extractor: e, h: h})
@@ -452,6 +474,9 @@ func runScan(spec *RunSpec, corrupt bool, sb *sandbox, after func(ext, p string)
 						st, obs.Panic, fault = h.origStack, h.origPanic, h.origFault
 					}
 					obs.PanicExt = h.lastExt
+					if h.curReq != "" {
+						obs.PanicExt = h.curReq // it happened in this extractor's FileRequired
+					}
 					obs.PanicSite = panicSite(st)
 					if fault {
 						obs.Panic = "FATAL memory fault (kills the whole process in production; made observable with debug.SetPanicOnFault): " + reHex.ReplaceAllString(obs.Panic, "0x..")
@@ -503,6 +528,14 @@ wait:
 	if sfs != nil {
 		obs.Fired = sfs.Fired
 		obs.OpenLeak = sfs.Open_
+	}
+	if obs.Budget == "" {
+		// the engine's recover around Extract contains the harness's budget signal as well
+		if h.budgetHit != "" {
+			obs.Budget = h.budgetHit
+		} else if rec.Limit > 0 && len(rec.Events) > rec.Limit {
+			obs.Budget = "step-cap:" + h.lastExt
+		}
 	}
 	if res == nil {
 		return obs, nil
